@@ -80,6 +80,9 @@ pub struct H3Conn {
     pub initial_flights: Vec<(bool, usize)>,
     /// send the datagrams of every burst of the handshake in reverse order (the tail of the ClientHello arrives first)
     reverse_handshake_flights: bool,
+    /// request streams whose body `drain_events` leaves in the transport's receive buffer: the driver decides when
+    /// the application reads them (`read_body`), i.e. when their flow-control credit returns to the endpoint
+    pub hold: std::collections::BTreeSet<u64>,
 }
 
 pub struct ClientOpts<'a> {
@@ -90,6 +93,8 @@ pub struct ClientOpts<'a> {
     pub idle_timeout_ms: u64,
     /// the datagrams of each burst sent before the handshake completes leave in reverse order
     pub reverse_handshake_flights: bool,
+    /// fixed flow-control windows of the client (connection, request stream) in octets; None = the roomy defaults
+    pub windows: Option<(u64, u64)>,
 }
 
 impl Default for ClientOpts<'_> {
@@ -101,6 +106,7 @@ impl Default for ClientOpts<'_> {
             handshake_budget: Duration::from_secs(10),
             idle_timeout_ms: 30_000,
             reverse_handshake_flights: false,
+            windows: None,
         }
     }
 }
@@ -146,11 +152,19 @@ impl H3Conn {
         config.set_initial_max_stream_data_uni(1_000_000);
         config.set_initial_max_streams_bidi(100);
         config.set_initial_max_streams_uni(100);
+        if let Some((cw, sw)) = o.windows {
+            // fixed windows (the maximum equals the initial value: quiche does not grow them)
+            config.set_initial_max_data(cw);
+            config.set_max_connection_window(cw);
+            config.set_max_stream_window(sw);
+            config.set_initial_max_stream_data_bidi_local(sw);
+            config.set_initial_max_stream_data_bidi_remote(sw);
+        }
         config.set_application_protos(o.alpn).map_err(|e| ConnectError::Io(e.to_string()))?;
         let id = scid(local.port() as u64);
         let conn = quiche::connect(o.sni, &quiche::ConnectionId::from_ref(&id), local, server, &mut config)
             .map_err(|e| ConnectError::Io(e.to_string()))?;
-        let mut c = H3Conn { sock, local, peer: server, conn, h3: None, streams: BTreeMap::new(), goaway: false, body_keep: usize::MAX, rx_after_handshake: 0, deaf_until: None, max_dropped: 100, dropped: 0, io_error: None, initial_flights: Vec::new(), reverse_handshake_flights: o.reverse_handshake_flights };
+        let mut c = H3Conn { sock, local, peer: server, conn, h3: None, streams: BTreeMap::new(), goaway: false, body_keep: usize::MAX, rx_after_handshake: 0, deaf_until: None, max_dropped: 100, dropped: 0, io_error: None, initial_flights: Vec::new(), reverse_handshake_flights: o.reverse_handshake_flights, hold: Default::default() };
         let deadline = Instant::now() + o.handshake_budget;
         loop {
             c.flush();
@@ -348,6 +362,7 @@ impl H3Conn {
                     let s = self.streams.entry(sid).or_default();
                     s.heads.push(list.iter().map(|h| (String::from_utf8_lossy(h.name()).to_string(), h.value().to_vec())).collect());
                 }
+                Ok((sid, h3::Event::Data)) if self.hold.contains(&sid) => (),
                 Ok((sid, h3::Event::Data)) => {
                     let mut buf = [0u8; 65536];
                     loop {
@@ -390,6 +405,60 @@ impl H3Conn {
                 Ok((_, h3::Event::PriorityUpdate)) => (),
                 Err(h3::Error::Done) => break,
                 Err(_) => break,
+            }
+        }
+    }
+
+    /// The application reads at most `max` body octets of a (held) stream that are in the transport's receive buffer;
+    /// returns how many it got. The flow-control updates this causes leave with the next flush.
+    pub fn read_body(&mut self, sid: u64, max: usize) -> usize {
+        let Some(h3c) = self.h3.as_mut() else { return 0 };
+        let mut buf = [0u8; 16384];
+        let mut total = 0;
+        while total < max {
+            let want = (max - total).min(buf.len());
+            match h3c.recv_body(&mut self.conn, sid, &mut buf[..want]) {
+                Ok(0) => break,
+                Ok(n) => {
+                    let keep = self.body_keep;
+                    let st = self.streams.entry(sid).or_default();
+                    st.body_len += n as u64;
+                    let room = keep.saturating_sub(st.body.len()).min(n);
+                    st.body.extend_from_slice(&buf[..room]);
+                    total += n;
+                }
+                Err(h3::Error::TransportError(quiche::Error::StreamReset(code))) => {
+                    self.streams.entry(sid).or_default().reset = Some(code);
+                    break;
+                }
+                Err(_) => break,
+            }
+        }
+        self.flush();
+        total
+    }
+
+    /// Drive the connection until nothing has arrived for `quiet` (the endpoint has sent what the client's credit
+    /// allows, or has nothing to send), at most for `budget`. Returns whether it became quiet.
+    pub fn settle(&mut self, quiet: Duration, budget: Duration) -> bool {
+        let deadline = Instant::now() + budget;
+        let mut last = Instant::now();
+        loop {
+            self.flush();
+            self.drain_events();
+            self.flush();
+            let now = Instant::now();
+            if self.conn.is_closed() || self.io_error.is_some() {
+                return false;
+            }
+            if now.duration_since(last) >= quiet {
+                return true;
+            }
+            if now >= deadline {
+                return false;
+            }
+            if self.wait_packet((quiet - now.duration_since(last)).min(deadline - now)) {
+                last = Instant::now();
             }
         }
     }
